@@ -756,6 +756,8 @@ def run(ctx):
     ctx.rule('C03.HEIGHTS', lambda: rule_heights(ctx), 2)
     ctx.rule('C03.TOUCHED', lambda: rule_touched(ctx), 4)
     ctx.rule('C03.MEMO', lambda: rule_memo(ctx), 12)
+    from . import c01 as _c01u
+    ctx.rule('C03.UNSPENDABLE', lambda: _c01u.rule_unspendable(ctx), 5)
     from . import c02 as _c02, c10 as _c10
     ctx.rule('C03.BISECT', lambda: _c02.rule_bisect(ctx), 2)
     ctx.rule('C03.SIGNAL', lambda: _c10.rule_signal(ctx, 'C03.SIGNAL'), 5)
